@@ -183,7 +183,7 @@ def h_seq(shape):
                             call.name in ("enable_eom_mode", "modify_eom_setpoint") and call.kwargs["optimal_detuning_off"] == cur[2]))
                 for sl in cs.slots[n0:]:
                     if l1.is_pulse(sl):
-                        obs.append(("k3:buffer_at_off_detuning", bool(cs.is_detuned_delay(sl.type)) and float(sl.type.detuning[0]) == cur[2]))
+                        obs.append(("k3:buffer_at_off_detuning", l1.ref_is_detuned_delay(sl.type) and float(sl.type.detuning[0]) == cur[2]))
             elif op[0] == "eom_pulse":
                 seq.add_eom_pulse("g", inp.mult("d%d" % i, 4, 8, 400), op[1], protocol=op[2] if len(op) > 2 else "min-delay")
                 sl = cs.slots[-1]
@@ -192,7 +192,7 @@ def h_seq(shape):
                 obs.append(("k3:eom_pulse_setpoint", AND(float(p.amplitude._value) == cur[0], float(p.detuning._value) == cur[1])))
                 for s2 in cs.slots[n0:-1]:
                     if l1.is_pulse(s2):
-                        obs.append(("k3:idle_at_off_detuning", bool(cs.is_detuned_delay(s2.type)) and float(s2.type.detuning[0]) == cur[2]))
+                        obs.append(("k3:idle_at_off_detuning", l1.ref_is_detuned_delay(s2.type) and float(s2.type.detuning[0]) == cur[2]))
                     else:
                         obs.append(("k3:plain_idle_only_if_off_detuning_zero", cur[2] == 0))
             elif op[0] == "delay":
@@ -202,7 +202,7 @@ def h_seq(shape):
                     if cur[2] == 0:
                         obs.append(("k3:delay_plain", sl.type == "delay"))
                     else:
-                        obs.append(("k3:delay_at_off_detuning", l1.is_pulse(sl) and bool(cs.is_detuned_delay(sl.type))
+                        obs.append(("k3:delay_at_off_detuning", l1.is_pulse(sl) and l1.ref_is_detuned_delay(sl.type)
                                     and float(sl.type.detuning[0]) == cur[2]))
             elif op[0] == "disable":
                 seq.disable_eom_mode("g")
@@ -272,7 +272,7 @@ def h_drift(shape):
                 proto = op[2] if len(op) > 2 else "min-delay"
                 prev = None
                 for cand in cs.slots[-2::-1]:
-                    if l1.is_pulse(cand) and not cs.is_detuned_delay(cand.type):
+                    if l1.is_pulse(cand) and not l1.ref_is_detuned_delay(cand.type):
                         prev = cand
                         break
                 if prev is not None and proto != "no-delay" and cs.in_eom_mode(prev):
